@@ -28,9 +28,25 @@ macro_rules! harness_lms_contract {
     };
 }
 
+/// Harness wrapper with one extra stub given as (original, replacement).
+macro_rules! harness_stub {
+    ($(#[$m:meta])* fn $name:ident() unwind $unwind:literal stub($orig:path, $repl:path) $body:block) => {
+        $(#[$m])*
+        #[kani::proof]
+        #[kani::unwind($unwind)]
+        #[kani::stub(zeroize::optimization_barrier, crate::models::noop_barrier)]
+        #[kani::stub(<[u8; 32] as tinyvec::Array>::default, crate::models::fast_default)]
+        #[kani::stub($orig, $repl)]
+        pub fn $name() $body
+    };
+}
+
 pub mod c04;
+pub mod c07;
+pub mod c15;
 pub mod c06;
 pub mod c12;
+#[cfg(verif_levels = "8")]
 pub mod c13;
 
 harness! { fn selftest_smoke() unwind 3 {
